@@ -95,12 +95,13 @@ theorem task_takes_earliest_slots (e : Env) (wf : WF e) (σ : St) (t r : Nat)
 
 /-- **C07, the earliest-fit clause, for whole projects** (`Proofs/EarliestFit`): after scheduling ANY well-formed project there
     is a linear order of the tasks — the order in which the loop placed them, latest first — such that every forward effort
-    task `t` reported as scheduled, without a start of its own, whose single selected resource `r` is an unlimited leaf, occurs
-    in it (`order = post ++ t :: pre`, `pre` being the tasks placed before `t`), and between the slot of `t`'s dependency bound
+    task `t` reported as scheduled, without a start of its own, with the single selected leaf resource `r`, occurs in it
+    (`order = post ++ t :: pre`, `pre` being the tasks placed before `t`), and between the slot of `t`'s dependency bound
     (from the FINAL dates of its predecessors) and any slot in which `t` is booked, every slot in which `r` is on shift and
-    not on leave carries `t` itself or a task placed BEFORE `t`.  So `t` took the earliest slots at or after its bound that
-    the tasks placed before it had left — no such slot is empty, and none went to a task placed later: the schedule is the
-    list schedule of that order.  (Which order it is — priority, ties in declaration order, first ready — is the step-level
+    not on leave carries `t` itself, or a task placed BEFORE `t`, or is refused by a limit of the resource / a group / the
+    task / a container (counter at the limit in the final state).  So `t` took the earliest slots at or after its bound in
+    which its resource is working, unbooked by earlier tasks and within limits — no such slot is empty, and none went to a
+    task placed later: the schedule is the list schedule of that order.  (Which order it is — priority, ties in declaration order, first ready — is the step-level
     `order_by_priority`, `next_is_first_ready`, and for the lowest priority the two-run theorem of C09.) -/
 theorem earliest_fit_in_placement_order (e : Env) (wf : WF e) (tr : Tree e) :
     ∃ order : List Nat, ∀ t r, EligU e t r → ((runScenario e).tst t).scheduled = true → ((runScenario e).tst t).forward = true →
@@ -108,7 +109,8 @@ theorem earliest_fit_in_placement_order (e : Env) (wf : WF e) (tr : Tree e) :
         ∀ L, usageOf ((runScenario e).led.get r L).usage t ≠ none →
           ∀ i, boundSlot e (runScenario e) t ≤ i → i ≤ L → e.onShift r i = true → e.leaveMark r i = false →
             usageOf ((runScenario e).led.get r i).usage t ≠ none ∨
-            ∃ t' ∈ pre, usageOf ((runScenario e).led.get r i).usage t' ≠ none := by
+            (∃ t' ∈ pre, usageOf ((runScenario e).led.get r i).usage t' ≠ none) ∨
+            Exhausted e (runScenario e) t r i := by
   obtain ⟨order, h⟩ := runScenario_doneFit e wf tr
   exact ⟨order, fun t r hel hs hf =>
     h t r hel (runScenario_scheduled_done e t ⟨hel.el.leaf, hel.el.effort, hel.el.nomile⟩ hs) hf⟩
